@@ -119,7 +119,7 @@ fn result_class(r: &str) -> String {
         "transport".into()
     } else if first.starts_with("item") {
         "items".into()
-    } else if first.len() > 12 {
+    } else if first.len() > 12 || (first.len() == 4 && first.bytes().all(|b| b.is_ascii_hexdigit())) {
         "value".into()
     } else {
         first.to_string()
